@@ -32,7 +32,42 @@ var (
 	ixRangePool = []string{"1", "10", "9", "a", "ab", "b"}
 	ixGPool     = []string{"x", "y"}
 	ixSPool     = []string{"1", "10", "9"}
+	ixBig       = false
 )
+
+// useBigPools swaps the value pools of the shared table shape for "scaled" ones and returns the function that
+// restores the small pools (a worker runs its cases one after the other, so package-level pools are safe).
+// Scaled pools: 3 partitions (one with a 300-byte name), 40-260 sort keys (numeral-looking strings, strings
+// that share a 100-byte prefix and differ only in the last bytes, multi-byte strings), index-key pools with a
+// 70-byte member and 12 index sort keys. Size thresholds such as 16 / 32 / 64 / 100 / 128 / 256 entries per
+// partition, per index key and per page walk are crossed by the states built from them.
+func useBigPools(r *rand.Rand) func() {
+	h, rg, g, s := ixHashPool, ixRangePool, ixGPool, ixSPool
+	n := mon.Pick(r, []int{40, 70, 130, 260})
+	long := func(c string, n int) string {
+		b := ""
+		for len(b) < n {
+			b += c
+		}
+		return b[:n]
+	}
+	ixHashPool = []string{"p", "p.q", long("pq.", 300)}
+	ixRangePool = nil
+	for i := 0; i < n; i++ {
+		switch i % 4 {
+		case 0, 1:
+			ixRangePool = append(ixRangePool, fmt.Sprint(i))
+		case 2:
+			ixRangePool = append(ixRangePool, long("k", 100)+fmt.Sprintf("%03d", i))
+		default:
+			ixRangePool = append(ixRangePool, fmt.Sprintf("é%d", i))
+		}
+	}
+	ixGPool = []string{"x", "y", long("g", 70)}
+	ixSPool = []string{"1", "10", "9", "100", "11", "2", "20", "a", "ab", "b", long("s", 130), long("s", 131)}
+	ixBig = true
+	return func() { ixHashPool, ixRangePool, ixGPool, ixSPool, ixBig = h, rg, g, s, false }
+}
 
 // ixItem builds an item for ixSpec; g / s are absent when "".
 func ixItem(h, rg, g, s string, extra int) val.Item {
@@ -58,7 +93,11 @@ func maybe(r *rand.Rand, pool []string, pAbsent int) string {
 func ixRandomWrite(r *rand.Rand, table string, salt int) adapt.Op {
 	h, rg := mon.Pick(r, ixHashPool), mon.Pick(r, ixRangePool)
 	key := val.Item{"h": val.Str(h), "r": val.Str(rg)}
-	switch r.Intn(10) {
+	c := r.Intn(10)
+	if ixBig && r.Intn(2) == 0 {
+		c = 0 // scaled states are mostly filled: half of the writes are puts on top of the usual mix
+	}
+	switch c {
 	case 0, 1, 2, 3:
 		return adapt.Op{Kind: adapt.OpPut, Table: table, Item: ixItem(h, rg, maybe(r, ixGPool, 25), maybe(r, ixSPool, 25), salt)}
 	case 4:
